@@ -268,6 +268,16 @@ def c12_defects(rnd, S0, has_ref, is_derived):
             S['attrs'][refs[0]]['args'] = [('I', 'Rr'), ('S', '"r"'), ('I', 'KILO'), ('S', '"doc"'), ('S', '"x"')]
         case('ref_unit_too_many_args', ref_too_many)
 
+        def two_prefixes(S):
+            a = S['attrs'][u0]
+            a['args'] = [a['args'][0], a['args'][1], ('I', 'NONE'), ('I', 'MILLI'), ('N', '0.001')]
+        case('unit_two_prefixes', two_prefixes)
+
+        def ref_two_prefixes(S):
+            a = S['attrs'][refs[0]]
+            a['args'] = [a['args'][0], a['args'][1], ('I', 'KILO'), ('I', 'MEGA')]
+        case('ref_unit_two_prefixes', ref_two_prefixes)
+
         def wrong_order(S):
             S['attrs'][u0]['args'] = [S['attrs'][u0]['args'][0], S['attrs'][u0]['args'][1], ('N', '10.0'), ('I', 'KILO')]
         case('unit_scale_before_prefix', wrong_order)
@@ -354,6 +364,19 @@ def c12_defects(rnd, S0, has_ref, is_derived):
         def qa(S, text=text, q=q):
             S['qargs'] = dict(q, text=text)
         case(nm, qa)
+    # a path (not a plain identifier) as operand, naming REAL quantities that are in scope
+    if is_derived and S0['qargs']:
+        l, op, r = S0['qargs']['text'].split(' ')
+        for nm, text, q in [
+            ('qargs_real_path_lhs', 'self::%s %s %s' % (l, op, r), {'kind': 'binop', 'op': op, 'l': 'other', 'r': 'ident'}),
+            ('qargs_real_path_rhs', '%s %s crate::%s' % (l, op, r), {'kind': 'binop', 'op': op, 'l': 'ident', 'r': 'other'}),
+            ('qargs_real_parenthesised', '(%s) %s %s' % (l, op, r), {'kind': 'binop', 'op': op, 'l': 'other', 'r': 'ident'}),
+        ]:
+            if l == 'AmountT' and 'lhs' in nm:
+                continue
+            def qa2(S, text=text, q=q):
+                S['qargs'] = dict(q, text=text)
+            case(nm, qa2)
     return out
 
 
@@ -579,10 +602,10 @@ def c19(ctx):
     # fixed operation corpus in a minimal and in the full configuration
     for be in ('f64', 'dec'):
         outs = []
-        for label, fs in (('minimal', ['mass', 'length', 'duration', 'temperature']), ('full', list(FEATS) + ['std'])):
+        for label, fs in (('minimal', ['mass', 'length', 'duration', 'temperature']), ('full', list(FEATS) + ['std', 'serde'])):
             d = os.path.join(ctx['rundir'], 'corpus_%s_%s' % (label, be))
             os.makedirs(os.path.join(d, 'src'), exist_ok=True)
-            fl = fs + (['fpdec'] if be == 'dec' else [])   # minimal: no std, four quantities; full: std and all fourteen
+            fl = fs + (['fpdec'] if be == 'dec' else [])   # minimal: no std, four quantities; full: std, serde and all fourteen
             toml = ['[package]', 'name = "corpus"', 'version = "0.0.0"', 'edition = "2021"', '', '[dependencies]',
                     'quantities = { path = "%s", default-features = false, features = [%s] }' % (repo, ', '.join('"%s"' % f for f in fl)),
                     '', '[workspace]', '', '[profile.dev]', 'debug = false', 'incremental = false']
